@@ -53,7 +53,7 @@ MinT <- mcMinT
 SPECIFICATION Spec
 INVARIANT DesignRefinesProps
 """ % (T, tla_value(set(tags)), maxfiles, maxdur, "TRUE" if usepre else "FALSE", MAXT))
-    res = ctx.tlc(d, "MCFind", "MCFind.cfg", workers=16, must_hold=must_hold, coverage=must_hold, timeout=1500)
+    res = ctx.tlc(d, "MCFind", "MCFind.cfg", workers=16, must_hold=must_hold, coverage=must_hold, timeout=7200)
     if must_hold:
         cov = res.coverage()
         for a in ("Scan",) + (("Descend",) if levels else ()):
@@ -74,7 +74,7 @@ def gen_cases(ctx, T, maxfiles, maxdur, tags, nsample, R, seed):
     write(os.path.join(d, "MCCases.cfg"),
           "CONSTANTS T = %d Tags = %s MaxFiles = %d MaxDur = %d NSample = %d MaxT = %d\nMinT <- mcMinT\nR <- mcR\n"
           "INIT Init\nNEXT Next\nINVARIANT Emit\n" % (T, tla_value(set(tags)), maxfiles, maxdur, nsample, MAXT))
-    res = ctx.tlc(d, "MCCases", "MCCases.cfg", workers=1, seed=seed, timeout=1500)
+    res = ctx.tlc(d, "MCCases", "MCCases.cfg", workers=1, seed=seed, timeout=7200)
     cases = list(res.tagged("CASE"))
     if not cases:
         raise MachineryError("FindCases produced no case")
@@ -309,7 +309,7 @@ def record_session(rng, tid, emb_name, layout, nfiles, T):
 
 def validate_traces(ctx, path, n):
     d = ctx.tlc_dir("fileset")
-    res = ctx.tlc(d, "FindTrace", "FindTrace.cfg", workers=1, env={"TRACE_FILE": path}, timeout=1500)
+    res = ctx.tlc(d, "FindTrace", "FindTrace.cfg", workers=1, env={"TRACE_FILE": path}, timeout=7200)
     acc = {t[0] for t in res.tuples("ACCEPT")}
     rej = {t[0]: t[1] for t in res.tuples("REJECT")}
     if len(acc) + len(rej) != n:
